@@ -9,7 +9,7 @@ COMMON = os.path.join(CON, "common")
 ASSUMPTIONS = [
     "the host's canonicaliser is the one of the source comment / DESIGN C04 oracle (method LF body LF canonH path LF canonP); hyper serialises the HeaderMap/URI it is given",
     "hmac_sha256::HMAC is HMAC-SHA256 over key and the concatenated updates; hex::decode/encode are (un)hex (uninterpreted hmac_sha256, unhex_bytes, hex_text)",
-    "http: HeaderMap::iter yields every (name, value) once per value, values of one name in order; HeaderName is lower-case ASCII; HeaderValue::to_str is Ok exactly on visible-ASCII values; "
+    "http: HeaderMap::iter yields every (name, value) once per value, values of one name in order; HeaderName is lower-case ASCII; HeaderValue::as_bytes / String::from_utf8_lossy read a visible-ASCII value as its text (hv_view), any other value as some text (never panic); "
     "request::Builder::header appends (name lower-cased) or keeps an error, method/uri keep the headers, body() yields the builder's parts; Builder::*_ref are Some iff no error",
     "std: str::to_lowercase is `lower` (idempotent; ASCII lower-casing on ASCII text), str::trim is `trim`, eq_ignore_ascii_case compares ASCII-lower-cased text, Vec::extend appends the yielded items, "
     "String Ord (Itertools::sorted on &String) is the lexicographic order on chars, String is a lawful HashMap key, format! concatenates literal pieces and displayed String/&str/bool arguments "
@@ -35,7 +35,7 @@ SORTED_KEYS_ENS = """
             sorted_keys_of(map@).to_set() == map@.dom(),"""
 
 HDR_PRE = """broadcast use vstd::std_specs::hash::group_hash_axioms;
-broadcast use axiom_string_obeys_key_model, axiom_to_string_header_name, axiom_header_name_is_ascii_lower, axiom_lower_ascii, axiom_string_of, axiom_string_ext, axiom_string_from_str_obeys, axiom_string_from_str;
+broadcast use axiom_string_obeys_key_model, axiom_to_string_cow, axiom_to_string_header_name, axiom_header_name_is_ascii_lower, axiom_lower_ascii, axiom_string_of, axiom_string_ext, axiom_string_from_str_obeys, axiom_string_from_str;
 proof { reveal_strlit("\\n"); reveal_strlit(""); reveal_strlit(":"); assert(""@ =~= Seq::<char>::empty()); lits_auth(); }
 let ghost hm = hm_view(*headers);
 let ghost S = hdr_iter_pairs(*headers);
@@ -50,17 +50,13 @@ HDR_INV0 = """
             forall|j: int| 0 <= j < vx_hdr_remaining(&vx_it0).len() ==> *(#[trigger] vx_hdr_remaining(&vx_it0)[j]).0 == S[S.len() - vx_hdr_remaining(&vx_it0).len() + j].0
                 && *vx_hdr_remaining(&vx_it0)[j].1 == S[S.len() - vx_hdr_remaining(&vx_it0).len() + j].1,
             forall|k: String| #[trigger] map@.contains_key(k) <==> values_named(SV.subrange(0, S.len() - vx_hdr_remaining(&vx_it0).len()), k@).len() > 0,
-            forall|k: String| #[trigger] map@.contains_key(k) ==> map@[k].1@ == hv_view(values_named(SV.subrange(0, S.len() - vx_hdr_remaining(&vx_it0).len()), k@).last()) && is_ascii_lower(k@),
+            forall|k: String| #[trigger] map@.contains_key(k) ==> map@[k].1@ == hv_text(values_named(SV.subrange(0, S.len() - vx_hdr_remaining(&vx_it0).len()), k@).last()) && is_ascii_lower(k@),
         decreases vx_hdr_remaining(&vx_it0).len(),
 """
 HDR_H1 = """
         proof {
             let i0 = S.len() - vx_hdr_remaining(&vx_it0).len() - 1;
             assert(*value == S[i0].1 && key@ == SV[i0].0);
-            lemma_values_named_member(SV, i0);
-            assert(hm.contains_key(SV[i0].0));
-            assert(values_named(SV, SV[i0].0) == hm[SV[i0].0]);
-            assert(hv_visible_ascii(*value));
         }"""
 HDR_H2 = """
         proof {
@@ -74,7 +70,7 @@ HDR_H2 = """
             assert forall|k: String| #[trigger] map@.contains_key(k) <==> values_named(SV.subrange(0, i0 + 1), k@).len() > 0 by {
                 if k@ == n { assert(k == key_lower_case); }
             }
-            assert forall|k: String| #[trigger] map@.contains_key(k) implies map@[k].1@ == hv_view(values_named(SV.subrange(0, i0 + 1), k@).last()) && is_ascii_lower(k@) by {
+            assert forall|k: String| #[trigger] map@.contains_key(k) implies map@[k].1@ == hv_text(values_named(SV.subrange(0, i0 + 1), k@).last()) && is_ascii_lower(k@) by {
                 if k@ == n { assert(k == key_lower_case); }
             }
         }"""
@@ -92,7 +88,7 @@ HDR_INV1 = """
         invariant
             K == sorted_keys_of(map@), KV == string_views(K), ascending(KV), K.to_set() == map@.dom(),
             forall|k: String| #[trigger] map@.contains_key(k) <==> hm.contains_key(k@),
-            forall|k: String| #[trigger] map@.contains_key(k) ==> map@[k].1@ == hv_view(signed_value(hm[k@])) && is_ascii_lower(k@),
+            forall|k: String| #[trigger] map@.contains_key(k) ==> map@[k].1@ == hv_text(signed_value(hm[k@])) && is_ascii_lower(k@),
             vx_keys_remaining(&vx_it1).len() <= K.len(),
             forall|j: int| 0 <= j < vx_keys_remaining(&vx_it1).len() ==> *(#[trigger] vx_keys_remaining(&vx_it1)[j]) == K[K.len() - vx_keys_remaining(&vx_it1).len() + j],
             ascending(acc),
@@ -163,6 +159,10 @@ HDR_H5 = """
         }
         assert(acc.to_set() =~= signed_names(hm));
         lemma_sorted_names(acc, signed_names(hm));
+        if all_values_visible_ascii(hm) {
+            assert forall|n: Seq<char>| hm.contains_key(n) implies (#[trigger] hm[n]).len() > 0 by { assert(values_named(SV, n) == hm[n]); }
+            lemma_canon_h_exact(hm);
+        }
     }"""
 
 
@@ -269,23 +269,12 @@ def fmt_e9(u, sf, it, k, params, args, argspecs, name):
 
 BR_PRE = """broadcast use vstd::std_specs::hash::group_hash_axioms;
 broadcast use axiom_string_obeys_key_model, axiom_fmt_http_error, axiom_to_string_string, axiom_value_text_string, axiom_value_text_string_ref, axiom_key_view_string,
-    axiom_into_bytes_vec, axiom_clone_is_copy_u8, axiom_to_string_usize_vis, lemma_append_vis, axiom_string_ext;
-proof { reveal_strlit(""); reveal_strlit(" "); assert(""@ =~= Seq::<char>::empty()); lits_auth(); lits_claims(); }
+    axiom_into_bytes_vec, axiom_clone_is_copy_u8, axiom_string_ext;
+proof { reveal_strlit(""); reveal_strlit(" "); assert(""@ =~= Seq::<char>::empty()); lits_auth(); }
 """
 BR_INV0 = """
-        invariant
-            builder_parts(request_builder) matches Some(p) ==> all_values_visible_ascii(hm_view(parts_headers(p))),
+        invariant true,
 """
-BR_H0 = """
-    proof {
-        assert(all_values_visible_ascii(Map::<Seq<char>, Seq<http::header::HeaderValue>>::empty()));
-    }"""
-BR_H1 = """
-        proof {
-            let i0 = it.index@ as int;
-            assert(headers@.contains_key(*it.seq()[i0].0) && headers@[*it.seq()[i0].0] == *it.seq()[i0].1);
-            assert(vis(value@));
-        }"""
 BR_H2 = """
         let ghost b1 = request_builder;
 """
@@ -356,7 +345,6 @@ def ext_fns_verbatim(u, sf, modname, uses, fn_paths):
 
 SITE_PRE = """broadcast use vstd::std_specs::hash::group_hash_axioms;
 broadcast use axiom_string_obeys_key_model;
-proof { lits_site_headers(); }
 """
 
 
@@ -396,7 +384,7 @@ def ext_types_and_impls(u, sf, modname, uses, type_paths, impl_paths):
 
 ATT_PRE = """broadcast use vstd::std_specs::hash::group_hash_axioms;
 broadcast use axiom_string_obeys_key_model, axiom_to_string_string;
-proof { lits_site_headers(); assert(latched(key.guid@, key.key@)); }
+proof { assert(latched(key.guid@, key.key@)); }
 """
 
 
@@ -423,7 +411,7 @@ def build(u):
     u.raw_file("deps.rs")
     with u.mod("proxy_agent_shared"):
         with u.mod("misc_helpers"):
-            u.take_fn(mh, "get_date_time_rfc1123_string", external_body=True, contract="        ensures vis(r@),   // an RFC 1123 date is ASCII text\n")
+            u.take_fn(mh, "get_date_time_rfc1123_string", external_body=True)
     # the upstream write primitive of the agent's own calls (hyper plumbing): outside verus!, reached through vx_e9_send_request
     ext_fns_verbatim(u, hc, "vx_ext_send", "use crate::common::error::{Error, HyperErrorType};\nuse crate::common::result::Result;\nuse hyper::Request;\nuse hyper_util::rt::TokioIo;\nuse tokio::net::TcpStream;",
                      ["send_request", "build_http_sender"])
@@ -457,8 +445,9 @@ def build(u):
             u.take_fn(hc, "headers_to_canonicalized_string",
                 extra_attrs="#[verifier::loop_isolation(false)]",
                 contract="""
-        requires all_values_visible_ascii(hm_view(*headers)),  // @C13.headers_to_canonicalized_string.value_is_visible_ascii
         ensures r@ == canon_h(hm_view(*headers)),  // @C04.headers_to_canonicalized_string.one_line_per_name_except_authorization_ascending
+                all_values_visible_ascii(hm_view(*headers)) ==> r@ == canon_h_exact(hm_view(*headers)),  // @C04.headers_to_canonicalized_string.exact_value_text_when_values_are_visible_ascii
+                true,  // @C13.headers_to_canonicalized_string.never_panics   (no precondition: returns for ANY header map)
 """,
                 pre_body=HDR_PRE,
                 desugar_for={0: "vx_it0", 1: "vx_it1"},
@@ -479,7 +468,7 @@ def build(u):
                     fmt_e9_pos(u, hc, hit, 0, ["&String", "&str", "&String"], ["$@", "$@", "$@"], "vx_e9_fmt_header_line", wrap=[False, False, True],
                                arg_subst=[("map[key]", "vx_e9_map_index(&map, key)")])],
                 hints=[
-                    ("value.to_str()", None, "before", HDR_H1),
+                    ("let value = ", None, "before", HDR_H1),
                     ("map.insert(", None, "after", HDR_H2),
                     (hc.s(L1["span"][0], L1["body"][0]), None, "before", HDR_H3),
                     ("let h = format!(", None, "before", HDR_H3B),
@@ -527,7 +516,6 @@ def build(u):
                     ("&head.headers", None, "head: &Parts", "&head", "&hyper::HeaderMap", "    ensures *r == parts_headers(*head),", dict(name="vx_e9_parts_headers", local=True)),
                     ("&head.uri", None, "head: &Parts", "&head", "&Uri", "    ensures *r == parts_uri(*head),", dict(name="vx_e9_parts_uri", local=True))],
                 contract="""
-        requires all_values_visible_ascii(hm_view(parts_headers(head))),  // @C13.as_sig_input.header_values_visible_ascii
         ensures r@ == sig_input_spec(parts_method(head), parts_uri(head), parts_headers(head), bytes_view(body)),  // @C04.as_sig_input.canonical_string_of_the_forwarded_parts
 """)
             u.take_fn(hc, "request_to_sign_input",
@@ -536,10 +524,9 @@ def build(u):
                 "Failed to get method from request builder".to_string(),
             ))""", "all", "", "", "Error", "", dict(name="vx_e9_builder_error", local=True))],
                 contract="""
-        requires builder_parts(*request_builder) matches Some(p) ==> all_values_visible_ascii(hm_view(parts_headers(p))),  // @C13.request_to_sign_input.header_values_visible_ascii
         ensures r matches Ok(d) ==> builder_parts(*request_builder) matches Some(p) && d@ == sig_input_spec(parts_method(p), parts_uri(p), parts_headers(p), opt_bytes(body)),  // @C04.request_to_sign_input.same_canonical_string_of_the_builders_parts
 """)
-            u.take_fn(hc, "host_port_from_uri", external_body=True, contract="        ensures r matches Ok(hp) ==> vis(hp.0@),   // the host of an http::Uri is ASCII text\n")
+            u.take_fn(hc, "host_port_from_uri", external_body=True)
             u.take_fn(hc, "empty_body", external_body=True, contract="        ensures box_body_bytes(r) == Seq::<u8>::empty(),\n")
             u.take_fn(hc, "full_body", external_body=True, contract="        ensures box_body_bytes(r) == into_bytes_view(chunk),\n")
             bit = hc.item("build_request", "fn")
@@ -564,13 +551,10 @@ def build(u):
                     ((bit["matches"][3]["arms"][1]["body"][0], bit["matches"][3]["arms"][1]["body"][1]), None, "e: http::Error", "e", "Result<Request<BoxBody<Bytes, hyper::Error>>>", "    ensures r is Err,",
                      dict(name="vx_e9_request_builder_error", local=True)),
                     ],
-                hints=[("let mut request_builder = Request::builder()", None, "before", BR_H0),
-                       ("request_builder = request_builder.header(key, value);", None, "before", BR_H1),
-                       ("let input_to_sign = ", None, "before", BR_H2),
+                hints=[("let input_to_sign = ", None, "before", BR_H2),
                        ("constants::AUTHORIZATION_HEADER.to_string(),", None, "after", BR_H3)],
                 contract="""
         requires pair_ok(key_guid, key),  // @C10.build_request.key_id_and_key_latched_together
-                 forall|k: String| headers@.contains_key(k) ==> vis(#[trigger] headers@[k]@),  // @C13.build_request.caller_header_values_visible_ascii
         ensures r matches Ok(req) ==> box_body_bytes(req_body(req)) == opt_slice(body),  // @C04.build_request.body_sent_is_the_body_signed
                 r matches Ok(req) ==> (key is Some && key_guid is Some ==> signed_request(req, key_guid->0@, key->0@, opt_slice(body))),  // @C04+C10.build_request.signed_last_over_own_parts_key_id_paired_with_its_mac
 """)
@@ -596,7 +580,6 @@ def build(u):
                     ],
                 contract="""
         requires pair_ok(key_guid, key),  // @C10.get.key_id_and_key_latched_together
-                 forall|k: String| headers@.contains_key(k) ==> vis(#[trigger] headers@[k]@),  // @C13.get.caller_header_values_visible_ascii
 """)
             u.take_fn(hc, "should_skip_sig",
                 pre_body="broadcast use axiom_to_string_uri;\nproof { lits_skip(); }",
@@ -613,10 +596,12 @@ def build(u):
             with u.impl_(kkw, "KeyKeeperSharedState"):
                 # each of these sends one GetKey message and projects one field of the reply (key_keeper_wrapper.rs); between two
                 # calls the actor may process SetKey messages of the key keeper task, so the two replies are unrelated
-                u.take_fn(kkw, "KeyKeeperSharedState::get_current_key_value", external_body=True, contract="""
+                if kkw.has_item("KeyKeeperSharedState::get_current_key_value"):
+                    u.take_fn(kkw, "KeyKeeperSharedState::get_current_key_value", external_body=True, contract="""
         ensures r matches Ok(Some(v)) ==> exists|k: Key| key_record(k) && #[trigger] k.key@ == v@,
 """)
-                u.take_fn(kkw, "KeyKeeperSharedState::get_current_key_guid", external_body=True, contract="""
+                if kkw.has_item("KeyKeeperSharedState::get_current_key_guid"):
+                    u.take_fn(kkw, "KeyKeeperSharedState::get_current_key_guid", external_body=True, contract="""
         ensures r matches Ok(Some(g)) ==> exists|k: Key| key_record(k) && #[trigger] k.guid@ == g@,
 """)
                 if kkw.has_item("KeyKeeperSharedState::get_current_key"):
